@@ -223,7 +223,8 @@ PROFILES = {
         [sim(100, 30, Keys={1, 2, 3}, MaxSeq=26, MaxTables=6, MaxHist=30, MaxSnaps=2, MaxSealed=2,
              Ops=SNAP_OPS | {"reopen", "droprange", "clear"}, WriteBias=4),
          drv(300, 400, dict(DRIVE_SNAP_W, droprange=2.0, clear=0.5))],
-        regress=["findings/C15-leveled-empty-next-level.replay.json"]),
+        regress=["findings/C15-leveled-empty-next-level.replay.json"],
+        blobs=[None, None, None, BLOBS[1], BLOBS[0]], val_alphas=[0, 1, 2]),
     # C17 compaction filters
     "C17": tree_profile(
         6, ["READ", "SCAN", "SNAPRES", "OPFAIL", "DANGLE", "PTR", "GC", "INVENT"],
